@@ -69,6 +69,9 @@ def read_files(kind, directory, opts):
         out["x"] = ds.x.values.tolist()
         if "probe1Temperature" in ds:
             out["probe1"] = np.asarray(ds.probe1Temperature.values).tolist()
+        for k in ("userAcquisitionTimeFW", "userAcquisitionTimeBW"):
+            if k in ds:
+                out[k] = np.asarray(ds[k].values, float).tolist()
         for k in ("acquisitiontimeFW", "acquisitiontimeBW"):
             if k in ds.coords or k in ds:
                 out[k] = (np.asarray(ds[k].values) / np.timedelta64(1, "s")).tolist()
